@@ -35,6 +35,7 @@ TH.EXTRA["tat_inj (a duplicate-free tuple holds different elements at different 
     patterns=[z3.MultiPattern(TH.tat(_k, _x), TH.tat(_k, _y), TH.distinct_t(_k))])
 # common(k1, k2) = |set(k1) & set(k2)| as the specification term scommon(tset(k1), tset(k2)) (hv/pyvc/theory.py, hv/contracts/similarity.py):
 # the value `intersection(set(e_i), set(e_j))` returns by its contract, so no cardinality reasoning is needed in the projection's own proof
+NXVIEWS["jacc"] = lambda eng, p, g, k1, k2: T.sv_real(TH.sjaccard(TH.tset(k1.t), TH.tset(k2.t)))
 NXVIEWS["common"] = lambda eng, p, g, k1, k2: T.sv_int(TH.scommon(TH.tset(k1.t), TH.tset(k2.t)))
 def _cent(kind):
     return lambda eng, p, g: T.sv_map(T.INT, T.REAL, g.fields["_gv"].t, TH.nx_centrality(kind, g.ty.cls)(
@@ -104,9 +105,6 @@ CONTRACTS = [
 # ---- directed line graph: one vertex per hyperedge (numbered through the returned id table), an arc e -> f exactly when e != f and the
 # target set of e and the source set of f share at least s nodes; with weighted=True the arc carries that number as weight
 IDS = "result[1]"
-OVER = "card({x for x in Node if x in snd(%s) and x in fst(%s)})"
-ARC_R = f"(result[1][i] != result[1][j] and {OVER % ('result[1][i]', 'result[1][j]')} >= s)"
-ARC_L = f"(id_to_edge[i] != id_to_edge[j] and {OVER % ('id_to_edge[i]', 'id_to_edge[j]')} >= s)"
 TABLE = {"dom": "all((i in id_to_edge) == (0 <= i and i < cont) for i in Int)",
          "cont": "cont == len(_done0)",
          "e2i_dom": "all((k in edge_to_id) == (count(_done0, k) >= 1) for k in Key)",
@@ -117,9 +115,17 @@ FINAL_TABLE = {"dom": "all((i in id_to_edge) == (0 <= i and i < card(E(h))) for 
                "inv1": "all(id_to_edge[edge_to_id[k]] == k and 0 <= edge_to_id[k] and edge_to_id[k] < card(E(h)) for k in edge_to_id)",
                "inv2": "all(edge_to_id[id_to_edge[i]] == i and id_to_edge[i] in edge_to_id for i in id_to_edge if trig(id_to_edge[i]))",
                "vertices": "all((i in GV(g)) == (0 <= i and i < card(E(h))) for i in Int)"}
-CONTRACTS += [
-    Contract("directed_line_graph@intersection", FILE, ["directed_line_graph"], properties=["C10"],
-             params={"h": "Obj[DirectedHypergraph]", "distance": "Str", "s": "Int", "weighted": "Bool"}, fixed={"distance": "intersection"},
+
+
+def _directed_line_graph(distance, measure, wt, sty):
+    over_r = f"{measure}(result[0], snd(result[1][i]), fst(result[1][j]))"
+    over_l = f"{measure}(g, snd(id_to_edge[i]), fst(id_to_edge[j]))"
+    arc_r = f"(result[1][i] != result[1][j] and {over_r} >= s)"
+    arc_l = f"(id_to_edge[i] != id_to_edge[j] and {over_l} >= s)"
+    wl = f"all(implies(LINK(g, i, j), HASW(g, i, j) == weighted and implies(weighted, GW(g, i, j) == {wt.format(inter=over_l)})) for i in Int for j in Int)"
+    nw = "all(implies(not LINK(g, i, j), not HASW(g, i, j)) for i in Int for j in Int)"
+    return Contract(f"directed_line_graph@{distance}", FILE, ["directed_line_graph"], properties=["C10"], options={"tuple_sets"},
+             params={"h": "Obj[DirectedHypergraph]", "distance": "Str", "s": sty, "weighted": "Bool"}, fixed={"distance": distance},
              result="Multi[Obj[NxDiGraph],Map[Int,Pair[Tup,Tup]]]", pure=True,
              locals={"edge_to_id": "Map[Pair[Tup,Tup],Int]", "id_to_edge": "Map[Int,Pair[Tup,Tup]]"},
              requires={"wf": "wf(h)"},
@@ -128,22 +134,25 @@ CONTRACTS += [
                       "ids_injective": f"all(implies(i in {IDS} and j in {IDS} and {IDS}[i] == {IDS}[j], i == j) for i in Int for j in Int)",
                       "ids_onto": f"all(any(i in {IDS} and {IDS}[i] == k for i in Int) for k in E(h))",
                       "vertices": "all((i in GV(result[0])) == (0 <= i and i < card(E(h))) for i in Int)",
-                      "arcs_sound": f"all(implies(LINK(result[0], i, j), i in {IDS} and j in {IDS} and {ARC_R}) for i in Int for j in Int)",
-                      "arcs_complete": f"all(implies(i in {IDS} and j in {IDS} and {ARC_R}, LINK(result[0], i, j)) for i in Int for j in Int)",
-                      "weights": f"all(implies(LINK(result[0], i, j), HASW(result[0], i, j) == weighted and implies(weighted, GW(result[0], i, j) == real({OVER % ('result[1][i]', 'result[1][j]')}))) for i in Int for j in Int)"},
+                      "arcs_sound": f"all(implies(LINK(result[0], i, j), i in {IDS} and j in {IDS} and {arc_r}) for i in Int for j in Int)",
+                      "arcs_complete": f"all(implies(i in {IDS} and j in {IDS} and {arc_r}, LINK(result[0], i, j)) for i in Int for j in Int)",
+                      "weights": f"all(implies(LINK(result[0], i, j), HASW(result[0], i, j) == weighted and implies(weighted, GW(result[0], i, j) == {wt.format(inter=over_r)})) for i in Int for j in Int)"},
              invariants={
                  0: TABLE,
-                 1: {**FINAL_TABLE, "noweight": "all(implies(not LINK(g, i, j), not HASW(g, i, j)) for i in Int for j in Int)",
-                     "arcs_sound": f"all(implies(LINK(g, i, j), i in id_to_edge and j in id_to_edge and count(_done1, id_to_edge[i]) >= 1 and {ARC_L}) for i in Int for j in Int)",
-                     "arcs_complete": f"all(implies(i in id_to_edge and j in id_to_edge and count(_done1, id_to_edge[i]) >= 1 and {ARC_L}, LINK(g, i, j)) for i in Int for j in Int)",
-                     "weights": f"all(implies(LINK(g, i, j), HASW(g, i, j) == weighted and implies(weighted, GW(g, i, j) == real({OVER % ('id_to_edge[i]', 'id_to_edge[j]')}))) for i in Int for j in Int)"},
-                 2: {**FINAL_TABLE, "edge1": "edge1 in E(h) and count(_done1, edge1) == 0",
-                     "noweight": "all(implies(not LINK(g, i, j), not HASW(g, i, j)) for i in Int for j in Int)",
-                     "arcs_sound": f"all(implies(LINK(g, i, j), i in id_to_edge and j in id_to_edge and (count(_done1, id_to_edge[i]) >= 1 or (id_to_edge[i] == edge1 and count(_done2, id_to_edge[j]) >= 1)) and {ARC_L}) for i in Int for j in Int)",
-                     "arcs_complete": f"all(implies(i in id_to_edge and j in id_to_edge and (count(_done1, id_to_edge[i]) >= 1 or (id_to_edge[i] == edge1 and count(_done2, id_to_edge[j]) >= 1)) and {ARC_L}, LINK(g, i, j)) for i in Int for j in Int)",
-                     "weights": f"all(implies(LINK(g, i, j), HASW(g, i, j) == weighted and implies(weighted, GW(g, i, j) == real({OVER % ('id_to_edge[i]', 'id_to_edge[j]')}))) for i in Int for j in Int)"},
-             }),
-]
+                 1: {**FINAL_TABLE, "noweight": nw,
+                     "arcs_sound": f"all(implies(LINK(g, i, j), i in id_to_edge and j in id_to_edge and count(_done1, id_to_edge[i]) >= 1 and {arc_l}) for i in Int for j in Int)",
+                     "arcs_complete": f"all(implies(i in id_to_edge and j in id_to_edge and count(_done1, id_to_edge[i]) >= 1 and {arc_l}, LINK(g, i, j)) for i in Int for j in Int)",
+                     "weights": wl},
+                 2: {**FINAL_TABLE, "edge1": "edge1 in E(h) and count(_done1, edge1) == 0", "noweight": nw,
+                     "arcs_sound": f"all(implies(LINK(g, i, j), i in id_to_edge and j in id_to_edge and (count(_done1, id_to_edge[i]) >= 1 or (id_to_edge[i] == edge1 and count(_done2, id_to_edge[j]) >= 1)) and {arc_l}) for i in Int for j in Int)",
+                     "arcs_complete": f"all(implies(i in id_to_edge and j in id_to_edge and (count(_done1, id_to_edge[i]) >= 1 or (id_to_edge[i] == edge1 and count(_done2, id_to_edge[j]) >= 1)) and {arc_l}, LINK(g, i, j)) for i in Int for j in Int)",
+                     "weights": wl},
+             })
+
+
+# an arc e -> f exactly when e != f and the similarity of the target set of e and the source set of f is at least s; with weighted=True the
+# arc carries that value as weight
+CONTRACTS += [_directed_line_graph("intersection", "common", "real({inter})", "Int"), _directed_line_graph("jaccard", "jacc", "{inter}", "Real")]
 
 # ---- line graph (undirected): vertices 0..|E|-1 numbered through the returned id table
 UTABLE = {k: v.replace("for k in Key", "for k in Tuple").replace("_done0", "_done1") for k, v in TABLE.items()}
@@ -153,54 +162,58 @@ ADJ = {"adj_dom": "all((n in adj) == (n in V(h)) for n in Node)",
 TR = "if trig(LINK({g}, a, b))"
 
 
-def _lg(ids, g):
+def _lg(ids, g, measure="common", wt="real({inter})"):
     """Clause texts of the line graph over the id table `ids` and the graph `g` (instantiated on the links the goal talks about)."""
-    inter = f"common({g}, {ids}[a], {ids}[b])"
+    inter = f"{measure}({g}, {ids}[a], {ids}[b])"
     pair = f"a in {ids} and b in {ids} and a != b"
     tr = TR.format(g=g)
     return dict(inter=inter, pair=pair,
                 sound=f"all(implies(LINK({g}, a, b), {pair} and any(m in {ids}[a] and m in {ids}[b] for m in Node) and {inter} >= s) for a in Int for b in Int {tr})",
-                weights=f"all(implies(LINK({g}, a, b), HASW({g}, a, b) and GW({g}, a, b) == (real({inter}) if weighted else 1)) for a in Int for b in Int {tr})")
+                weights=f"all(implies(LINK({g}, a, b), HASW({g}, a, b) and GW({g}, a, b) == ({wt.format(inter=inter)} if weighted else 1)) for a in Int for b in Int {tr})")
 
 
-_R, _L = _lg("result[1]", "result[0]"), _lg("id_to_edge", "g")
 _T = TR.format(g="g")
-# a pair of hyperedges is examined the first time a node they share is visited; `vis` remembers the examined pairs
 PA, PB = "bpos(g, adj, n, id_to_edge[a])", "bpos(g, adj, n, id_to_edge[b])"
 HERE = "(n in id_to_edge[a] and n in id_to_edge[b])"
-LC2 = f"all(implies({_L['pair']} and m in _done2 and m in id_to_edge[a] and m in id_to_edge[b] and {_L['inter']} >= s, LINK(g, a, b)) for a in Int for b in Int for m in Node if trig(LINK(g, a, b), m in id_to_edge[a]))"
-LC3 = f"all(implies({_L['pair']} and {HERE} and ({PA} < _j3 or {PB} < _j3) and {_L['inter']} >= s, LINK(g, a, b)) for a in Int for b in Int {_T})"
-LC4 = f"all(implies({_L['pair']} and {HERE} and ({PA} < i or {PB} < i or ({PA} == i and {PB} < _j4) or ({PB} == i and {PA} < _j4)) and {_L['inter']} >= s, LINK(g, a, b)) for a in Int for b in Int {_T})"
-VS = f"all(implies({_L['pair']} and pairkey(g, a, b) in vis and {_L['inter']} >= s, LINK(g, a, b)) for a in Int for b in Int {_T})"
 NOWT = f"all(implies(not LINK(g, a, b), not HASW(g, a, b)) for a in Int for b in Int {_T})"
 POS_OK = "all(implies(k in E(h) and n in k, 0 <= bpos(g, adj, n, k) and bpos(g, adj, n, k) < len(adj[n]) and count(adj[n], k) == 1) for k in Tuple if trig(bpos(g, adj, n, k)))"
-COMMON = {**{k: v for k, v in UFINAL.items()}, "links_sound": _L["sound"], "links_seen": VS, "weights": _L["weights"], "noweight": NOWT}
-CONTRACTS += [
-    # two hyperedges are joined exactly when they are different, share a node and their intersection has at least s nodes (for s >= 1 the
-    # middle condition follows from the last; it is what makes the enumeration through the per-node incidence lists complete); the link
-    # carries the intersection size as weight when weighted=True and 1 otherwise; vertices 0..|E|-1 are numbered by the returned id table
-    Contract("line_graph@intersection", FILE, ["line_graph"], properties=["C10", "C20"], options={"pair_literals", "tuple_sets"},
-             params={"h": "Obj[Hypergraph]", "distance": "Str", "s": "Int", "weighted": "Bool"}, fixed={"distance": "intersection"},
-             result="Multi[Obj[NxGraph],Map[Int,Tup]]", pure=True,
-             locals={"adj": "Map[Int,Bag[Tup]]", "edge_to_id": "Map[Tup,Int]", "id_to_edge": "Map[Int,Tup]", "vis": "Map[Tup,Bool]"},
-             requires={"wf": "wf(h)"},
-             ensures={"ids_dom": f"all((i in {IDS}) == (0 <= i and i < card(E(h))) for i in Int)",
-                      "ids_edges": f"all({IDS}[i] in E(h) for i in {IDS})",
-                      "ids_injective": f"all(implies(i in {IDS} and j in {IDS} and {IDS}[i] == {IDS}[j], i == j) for i in Int for j in Int)",
-                      "ids_onto": f"all(any(i in {IDS} and {IDS}[i] == k for i in Int) for k in E(h))",
-                      "vertices": "all((i in GV(result[0])) == (0 <= i and i < card(E(h))) for i in Int)",
-                      "links_sound": _R["sound"],
-                      "links_complete": f"all(implies({_R['pair']} and m in {IDS}[a] and m in {IDS}[b] and {_R['inter']} >= s, LINK(result[0], a, b)) for a in Int for b in Int for m in Node if trig(LINK(result[0], a, b), m in {IDS}[a]))",
-                      "weights": _R["weights"]},
-             invariants={
-                 0: {"adj_dom": "all((n in adj) == (count(_done0, n) >= 1) for n in Node)", "adj_val": ADJ["adj_val"]},
-                 1: UTABLE,
-                 2: {**COMMON, "links_complete": LC2},
-                 3: {**COMMON, "node": "n in adj and n not in _done2", "pos_ok": POS_OK, "links_done": LC2, "links_rows": LC3},
-                 4: {**COMMON, "node": "n in adj and n not in _done2", "pos_ok": POS_OK, "links_done": LC2, "links_rows": LC4},
-             }),
-]
 
+
+def _line_graph(distance, measure, wt, sty):
+    """line_graph for one distance function: two hyperedges are joined exactly when they are different, share a node and their similarity is at
+    least s (for the intersection size and s >= 1, and for the Jaccard index and s > 0, the middle condition follows from the last; it is what
+    makes the enumeration through the per-node incidence lists complete); the link carries the similarity as weight when weighted=True and 1
+    otherwise; vertices 0..|E|-1 are numbered by the returned id table.  A pair of hyperedges is examined the first time a node they share is
+    visited; `vis` remembers the examined pairs."""
+    R_, L_ = _lg("result[1]", "result[0]", measure, wt), _lg("id_to_edge", "g", measure, wt)
+    lc2 = f"all(implies({L_['pair']} and m in _done2 and m in id_to_edge[a] and m in id_to_edge[b] and {L_['inter']} >= s, LINK(g, a, b)) for a in Int for b in Int for m in Node if trig(LINK(g, a, b), m in id_to_edge[a]))"
+    lc3 = f"all(implies({L_['pair']} and {HERE} and ({PA} < _j3 or {PB} < _j3) and {L_['inter']} >= s, LINK(g, a, b)) for a in Int for b in Int {_T})"
+    lc4 = f"all(implies({L_['pair']} and {HERE} and ({PA} < i or {PB} < i or ({PA} == i and {PB} < _j4) or ({PB} == i and {PA} < _j4)) and {L_['inter']} >= s, LINK(g, a, b)) for a in Int for b in Int {_T})"
+    vs = f"all(implies({L_['pair']} and pairkey(g, a, b) in vis and {L_['inter']} >= s, LINK(g, a, b)) for a in Int for b in Int {_T})"
+    common = {**{k: v for k, v in UFINAL.items()}, "links_sound": L_["sound"], "links_seen": vs, "weights": L_["weights"], "noweight": NOWT}
+    return Contract(f"line_graph@{distance}", FILE, ["line_graph"], properties=["C10", "C20"], options={"pair_literals", "tuple_sets"},
+                    params={"h": "Obj[Hypergraph]", "distance": "Str", "s": sty, "weighted": "Bool"}, fixed={"distance": distance},
+                    result="Multi[Obj[NxGraph],Map[Int,Tup]]", pure=True,
+                    locals={"adj": "Map[Int,Bag[Tup]]", "edge_to_id": "Map[Tup,Int]", "id_to_edge": "Map[Int,Tup]", "vis": "Map[Tup,Bool]"},
+                    requires={"wf": "wf(h)"},
+                    ensures={"ids_dom": f"all((i in {IDS}) == (0 <= i and i < card(E(h))) for i in Int)",
+                             "ids_edges": f"all({IDS}[i] in E(h) for i in {IDS})",
+                             "ids_injective": f"all(implies(i in {IDS} and j in {IDS} and {IDS}[i] == {IDS}[j], i == j) for i in Int for j in Int)",
+                             "ids_onto": f"all(any(i in {IDS} and {IDS}[i] == k for i in Int) for k in E(h))",
+                             "vertices": "all((i in GV(result[0])) == (0 <= i and i < card(E(h))) for i in Int)",
+                             "links_sound": R_["sound"],
+                             "links_complete": f"all(implies({R_['pair']} and m in {IDS}[a] and m in {IDS}[b] and {R_['inter']} >= s, LINK(result[0], a, b)) for a in Int for b in Int for m in Node if trig(LINK(result[0], a, b), m in {IDS}[a]))",
+                             "weights": R_["weights"]},
+                    invariants={
+                        0: {"adj_dom": "all((n in adj) == (count(_done0, n) >= 1) for n in Node)", "adj_val": ADJ["adj_val"]},
+                        1: UTABLE,
+                        2: {**common, "links_complete": lc2},
+                        3: {**common, "node": "n in adj and n not in _done2", "pos_ok": POS_OK, "links_done": lc2, "links_rows": lc3},
+                        4: {**common, "node": "n in adj and n not in _done2", "pos_ok": POS_OK, "links_done": lc2, "links_rows": lc4},
+                    })
+
+
+CONTRACTS += [_line_graph("intersection", "common", "real({inter})", "Int"), _line_graph("jaccard", "jacc", "{inter}", "Real")]
 
 # ------------------------------------------------------------------ hypergraphx/measures/s_centralities.py (C20)
 # the s-betweenness / s-closeness of a hyperedge is the networkx centrality of its vertex in the s-line graph built by line_graph (verified
